@@ -837,6 +837,47 @@ impl Session {
                     let _ = w;
                 }
             }
+            "lk_child_race" => {
+                // k child processes attempt to take the directory at the same time; each reports and holds
+                let k = step["k"].as_u64().unwrap_or(3);
+                let exe = std::env::current_exe().unwrap();
+                let before = image::dir_digest(&self.dir);
+                let mut chs = vec![];
+                for i in 0..k {
+                    let kind = if i % 2 == 0 { "open" } else { "dump" };
+                    let ch = std::process::Command::new(&exe)
+                        .args(["lockchild", &self.dir, kind])
+                        .stdin(std::process::Stdio::piped())
+                        .stdout(std::process::Stdio::piped())
+                        .spawn()
+                        .unwrap();
+                    chs.push((kind, ch));
+                }
+                let mut oks = 0;
+                let mut res = vec![];
+                for (kind, ch) in chs.iter_mut() {
+                    use std::io::BufRead;
+                    let mut line = String::new();
+                    let out = ch.stdout.as_mut().unwrap();
+                    let _ = std::io::BufReader::new(out).read_line(&mut line);
+                    let l = line.trim().to_string();
+                    if l == "ok" {
+                        oks += 1;
+                    }
+                    res.push(json!([kind, l]));
+                }
+                let owned = self.rl.is_some() || !self.contenders.is_empty();
+                // release the winners
+                for (_, ch) in chs.iter_mut() {
+                    use std::io::Write;
+                    if let Some(si) = ch.stdin.as_mut() {
+                        let _ = si.write_all(b"drop\n");
+                    }
+                    let _ = ch.wait();
+                }
+                let same = oks > 0 || before == image::dir_digest(&self.dir);
+                ev(json!({"e": "lkrace", "k": k, "oks": oks, "owned": owned, "same": same, "results": res}));
+            }
             "lk_drop" => {
                 let c = step["c"].as_u64().unwrap_or(1);
                 ev(json!({"e": "lk", "op": "drop", "c": c}));
